@@ -106,7 +106,7 @@ def run(ctx):
     p2cand = b"\tJMP\t.l\n.l:\n\tHLT\n"
     p2id = R.add([], src=p2cand.decode(), notrace=True)
     R.run()
-    if R.end(p2id).get("status") == "exit" and R.end(p2id).get("exit") not in (0,):
+    if R.end(p2id).get("status") == "exit":      # the process ended inside the job through os.Exit - with whatever status
         texts["pass2fail"] = p2cand
     crash_src = None
     for c, i in zip(cand, candid):
